@@ -40,11 +40,16 @@ class Frame:
 class LoopClause:
     """Inductive invariant for a loop with a symbolic trip count (DESIGN.md 3.5)."""
 
-    def __init__(self, havoc, invariant, decreases=None, name="loop"):
+    def __init__(self, havoc, invariant, decreases=None, name="loop", mode="both"):
         self.havoc = havoc            # fn(interp, frame) -> None : replace modified state by fresh symbols
         self.invariant = invariant    # fn(interp, frame, when) -> list of (label, cond)
         self.decreases = decreases    # fn(interp, frame) -> SInt/int  or None
         self.name = name
+        # both: establish, then the inductive step on the same path
+        # establish: check establishment and stop (the step is verified by another unit)
+        # step: start from an arbitrary state satisfying the invariant: the path condition collected
+        #       so far is dropped down to the unit's base assumptions, every loop-visible local is havocked
+        self.mode = mode
 
 
 class LoopCut(Exception):
@@ -394,8 +399,13 @@ class Interp:
         """Classical rule: establish, havoc, assume inv, then fork: (guard: body, preserve, cut) / (exit: continue)."""
         ctx = self.ctx
         base = "%s/%s/loop[%d]" % (self.prop, key[0].replace("puresnmp.", ""), key[1])
-        for label, cond in clause.invariant(self, frame, "entry"):
-            ctx.check("%s/invariant-established:%s" % (base, label), cond)
+        if clause.mode in ("both", "establish"):
+            for label, cond in clause.invariant(self, frame, "entry"):
+                ctx.check("%s/invariant-established:%s" % (base, label), cond)
+            if clause.mode == "establish":
+                raise LoopCut()
+        else:
+            del ctx.pc[ctx.base_len:]
         clause.havoc(self, frame)
         for label, cond in clause.invariant(self, frame, "assume"):
             ctx.assume(cond)
